@@ -421,6 +421,28 @@ func runTextInput(w *harness.W, e *tiEnv, hc hcase, sample bool) {
 			if lenient == "word-right" {
 				okDir = cur >= oldCur
 			}
+			// one word at a time: the nearest word start (going left) or the
+			// nearest word end (going right)
+			want := oldCur
+			if lenient == "word-left" {
+				for want > 0 && !isAlnum(old[want-1]) {
+					want--
+				}
+				for want > 0 && isAlnum(old[want-1]) {
+					want--
+				}
+			} else {
+				for want < len(old) && !isAlnum(old[want]) {
+					want++
+				}
+				for want < len(old) && isAlnum(old[want]) {
+					want++
+				}
+			}
+			if okDir && boundary(old, cur) && cur != want {
+				w.Violation("textinput:word-motion:not-one-word@"+op, fmt.Sprintf("op %d (%s) moved the cursor from %d to %d in %q: one word in that direction ends at %d", i, op, oldCur, cur, strings.Join(old, ""), want), hc, fmt.Sprint(cur), fmt.Sprint(want))
+				return
+			}
 			if !okDir || !boundary(old, cur) {
 				w.Violation("textinput:word-motion@"+op, fmt.Sprintf("op %d (%s) moved the cursor from %d to %d in %q (not in the right direction or not to a word boundary)", i, op, oldCur, cur, strings.Join(old, "")), hc, fmt.Sprint(cur), "a boundary in the direction of the motion")
 				return
